@@ -37,7 +37,7 @@ ASSUMPTIONS = [
     "qq_depth be ignored; a qq_depth keyword overrides configured min/max).",
 ]
 MIN_NONTRIVIAL = {'quick': 3000, 'thorough': 60000}
-REQUIRED_MONITORS = ['config-object-vs-text', 'bool-setting-odd-value', 'roundtrip', 'unknown-name', 'wait_to_parse',
+REQUIRED_MONITORS = ['config-object-vs-text', 'channel:ocr-precedence', 'bool-setting-odd-value', 'roundtrip', 'unknown-name', 'wait_to_parse',
                      'channel:bulk', 'channel:layout-over-copy_all',
                      'channel:A=C-reparsed',
                      'unknown-name:config-attribute', 'channel:A=B', 'channel:A=C',
@@ -382,6 +382,13 @@ def run_tract(st, desc, ctx, log, pytrs):
             x = pytrs.Tract.from_twprgesec('x', 154, 97, 14, config=cfg)
             y = pytrs.Tract.from_twprgesec('x', 154, 97, 14, default_ns=ns,
                                            default_ew=ew)
+            z = pytrs.Tract.from_twprgesec('x', 154, 97, 14,
+                                           config=pytrs.Config(cfg))
+            if z.trs != x.trs:
+                ctx.violation('tract-default-direction', case,
+                              f"from_twprgesec via Config({cfg!r}) object -> "
+                              f"{z.trs}, via the config text -> {x.trs}",
+                              dedup='cfgobj')
             if x.trs != y.trs or x.trs != f"154{ns or 'n'}97{ew or 'w'}14":
                 ctx.violation('tract-default-direction', case,
                               f"from_twprgesec via config {cfg!r} -> {x.trs}, "
@@ -490,6 +497,47 @@ def run_bulk(rng, ctx, pytrs):
                     f"{label}({b}={val}) on a tract configured {own!r} gives "
                     f"{got}; configured {b}.{val} it gives {res(ref)}",
                     dedup=f"{label}|{b}|{val}")
+
+
+def run_ocr_precedence(rng, ctx, pytrs):
+    """Absolute, not channel against channel (a process-wide leftover of an
+    earlier ocr_scrub parse would affect all channels alike): a Twp/Rge that
+    only the OCR scrubber can read is read exactly when ocr_scrub is in force
+    -- keyword over config, config over nothing."""
+    t, r = rng.choice([(154, 97), (115, 10), (51, 105)])
+    ts = str(t).replace('1', rng.choice('Il'), 1).replace('5', 'S', 1)
+    text = f"T{ts}N-R{r}W Sec 14: NE/4"
+    on, off = [f"{t}n{r}w14"], None
+    case = {'kind': 'ocr-precedence', 'text': text}
+    ctx.case(['ocr-precedence', text], True, shape='ocr-precedence', sample=case)
+    ctx.hit('channel:ocr-precedence')
+    P = pytrs.PLSSDesc
+    with ctx.guard(case):
+        def keyword(cfg, val):
+            d = P(text, config=cfg, wait_to_parse=True)
+            return [x.trs for x in d.parse(ocr_scrub=val, commit=False)]
+        runs = [
+            ("config 'ocr_scrub'", [x.trs for x in P(text, config='ocr_scrub').tracts], True),
+            ("keyword ocr_scrub=False over config 'ocr_scrub'", keyword('ocr_scrub', False), False),
+            ("no setting", [x.trs for x in P(text).tracts], False),
+            ("config 'ocr_scrub.False'", [x.trs for x in P(text, config='ocr_scrub.False').tracts], False),
+            ("keyword ocr_scrub=True over config 'ocr_scrub.False'", keyword('ocr_scrub.False', True), True),
+            ("preprocess(ocr_scrub=False) after an OCR parse",
+             [('T%dN-R%dW' % (t, r)) in P(text, config='ocr_scrub').preprocess(ocr_scrub=False, commit=False)], None),
+        ]
+        for label, got, expect_on in runs:
+            if expect_on is None:
+                ok = got == [False]
+            elif expect_on:
+                ok = got == on
+            else:
+                ok = got != on
+            if not ok:
+                ctx.violation('ocr-precedence', case,
+                              f"{label} on {text!r} gives {got}; the scrubbed "
+                              f"reading {on} is expected exactly when "
+                              f"ocr_scrub is in force", dedup=label)
+                return
 
 
 def run_layout_over_copy_all(rng, ctx, pytrs):
@@ -812,6 +860,8 @@ def run_shard(shard, ctx):
                 run_bulk(rng, ctx, pytrs)
             if i % 25 == 7:
                 run_layout_over_copy_all(rng, ctx, pytrs)
+            if i % 25 == 13:
+                run_ocr_precedence(rng, ctx, pytrs)
         return
     if fam == 'single-random':
         for _ in range(shard['n']):
